@@ -6,7 +6,7 @@
    functional definition), StandardExamples (6.10.3.5 verbatim), <>Finished under
    weak fairness.  Sensitivity control: with HideFix = FALSE (a function-like
    expansion forgets its own name) TLC must find the non-terminating behaviour.
-2. Generate -> replay: every finished behaviour of the families F1..F7 is one
+2. Generate -> replay: every finished behaviour of the families F1..F9 is one
    input; `chibicc -E` of the tree under test must print exactly the expected
    pp-token spellings (harness tokenizer, validated against Lexer.tla by C19 and
    here on a sample); a per-process timeout decides termination.  Inputs whose
@@ -22,8 +22,8 @@ from vt import Infra
 _LOCK = threading.Lock()
 
 # family -> (number of cases, quick stride, thorough stride); strides are primes that do not divide the radices
-FAMS = {"F1": (140544, 127, 1), "F2": (44376, 53, 1), "F3": (6615, 11, 1), "F4": (8077, 7, 1), "F5": (21, 1, 1), "F6": (26, 1, 1),
-        "F7": (36980, 97, 1)}
+FAMS = {"F1": (140544, 127, 1), "F2": (44376, 53, 1), "F3": (6615, 11, 1), "F4": (12433, 7, 1), "F5": (21, 1, 1), "F6": (26, 1, 1),
+        "F7": (36980, 97, 1), "F8": (3200, 3, 1), "F9": (392, 1, 1)}
 
 EXTRAS = [   # closed hand-written list: expansion next to directives, shape of the remaining predefined dynamic macros
     ("emptyexp-then-directive", "#define E\nx E\n#define Y 1\nY\n", ["x", "1"]),
@@ -177,11 +177,8 @@ def model_jobs(ctx):
     """the exhaustive checks of the machine itself, as independent TLC jobs"""
     q = ctx.quick
     jobs = []
-    # every order of argument pre-expansion; the functional definition; the standard's examples
-    for fam, stride in (("F5", 1), ("F3", 29 if q else 3), ("F4", 41 if q else 5), ("F2", 211 if q else 23),
-                        ("F1", 997 if q else 53), ("F7", 307 if q else 29)):
-        cfg = ctx.cfg("pp", "Macro_mc.cfg", Family='"%s"' % fam, Stride=stride, Seed=ctx.seed % stride)
-        jobs.append(("mc", cfg, "Macro.tla (Prosser machine) violates an invariant on family " + fam))
+    # (every order of argument pre-expansion, the functional definition and the standard's examples are
+    # checked by the generation runs themselves: Macro_gen.cfg has ArgOrder = "any" and all invariants)
     # liveness under weak fairness on a small configuration
     jobs.append(("mc", ctx.cfg("pp", "Macro_live.cfg", Family='"F5"'), "Macro.tla: some behaviour never finishes (F5)"))
     # sensitivity control: without the macro's own name in the hide set the machine must loop
@@ -204,7 +201,7 @@ def trace_validation(ctx, tree, cases):
     step of the machine (MacroTrace.tla).  Without the hook in the tree there are no events: skipped."""
     d = ctx.tmp("h3")
     texts = []
-    ok = [c for c in cases if c["class"] == "ok" and c["fam"] in ("F2", "F3", "F5", "F7")]
+    ok = [c for c in cases if c["class"] == "ok" and c["fam"] in ("F2", "F3", "F5", "F7", "F9")]
     for i in range(0, min(len(ok), 600), 60):
         f = os.path.join(d, "gen%d.c" % i)
         open(f, "w").write("".join(ppcase.render_case(c)[0] for c in ok[i:i + 60]))
@@ -267,7 +264,8 @@ def run(ctx):
     jobs = []
     for fam, (n, qs, ts) in FAMS.items():
         stride = qs if q else ts
-        cfg = ctx.cfg("pp", "Macro_gen.cfg", Family='"%s"' % fam, Stride=stride, Seed=ctx.seed % stride)
+        cfg = ctx.cfg("pp", "Macro_gen.cfg", Family='"%s"' % fam, Stride=stride, Seed=ctx.seed % stride,
+                      ArgOrder='"ltr"' if fam == "F6" else '"any"')      # __COUNTER__: one order only
         jobs.append((fam, cfg, cfg[:-4] + ".ndjson"))
     big = {"F1": 6, "F2": 4, "F7": 4}
     cap = int(os.environ.get("VERIF_TLC_CAP", "0"))       # development aid on a shared machine: fewer TLC threads
